@@ -504,7 +504,7 @@ def generate(ctx):
     import os
     only = os.environ.get("VERIF_ONLY")
     names = sorted(n for n in ENTRIES if not only or any(o in n for o in only.split(",")))
-    per = ctx.n(10, 120)
+    per = ctx.n(10, 600)
     for name in names:
         e = ENTRIES[name]
         if e["kind"] == "str":
